@@ -150,6 +150,9 @@ def _worker(prop: str, tier: str, w: int, nworkers: int, seed: int, budget: int,
         excluded = list(known_patterns)
         t_start = time.monotonic()
         shrink_cap = SHRINK_CAP_QUICK_S if tier == "quick" else SHRINK_CAP_THOROUGH_S
+        # tools/automut.py only: VERIF_SCREEN names a flag file; the first violation of any worker ends
+        # the run at once, unshrunk (never set by a registered command)
+        screen = os.environ.get("VERIF_SCREEN") or None
 
         def judge(case: Any, out: Any, target: str | None) -> Any:
             live = []
@@ -200,6 +203,8 @@ def _worker(prop: str, tier: str, w: int, nworkers: int, seed: int, budget: int,
                 generating = st8["target"] is None
                 if generating and time.monotonic() - t_start > time_budget:
                     raise _Stop()
+                if screen and st8["gen"] % 25 == 0 and os.path.exists(screen):
+                    raise _Stop()  # (screening: another worker has already found a violation)
                 if not generating and (time.monotonic() - st8["t_fail"] > shrink_cap
                                        or time.monotonic() - t_start > time_budget + shrink_cap):
                     # shrink budget used: leave Hypothesis with the smallest failing case seen so
@@ -218,6 +223,9 @@ def _worker(prop: str, tier: str, w: int, nworkers: int, seed: int, budget: int,
                     st8["t_fail"] = time.monotonic()
                 st8["seen_fail"][h] = True
                 st8["last"] = {"bucket": d.bucket, "cls": d.cls, "msg": d.msg, "case": case}
+                if screen:
+                    open(screen, "w").close()
+                    raise _StopShrink()
                 raise _Violation(d.msg)
 
             test = given(case=strat)(body)
@@ -248,6 +256,9 @@ def _worker(prop: str, tier: str, w: int, nworkers: int, seed: int, budget: int,
                     raise _Abort(f"hypothesis raised {type(exc).__name__}: {exc}") from exc
                 result.setdefault("notes", []).append(f"hypothesis: {type(exc).__name__}: {str(exc)[:300]}")
             remaining -= max(st8["gen"], 1)
+            if st8["last"] is not None and screen:
+                found.append(st8["last"])
+                break
             if st8["last"] is not None:
                 from harness.minimize import minimize
 
